@@ -318,10 +318,8 @@ def rule_E5(run_, pkg, an):
     run_.floor("protected writes of optimize", n, 2)
     # the fixed flag may only be written for the first vertex, to True, exactly under `if fix_first_pose` (shared with C06-a)
     from .. import optim_rules
-    oa = optim_rules.analyse(pkg)
-    for f in oa.findings:
-        if f.rule == "C06-a-who-may-fix":
-            run_.check(f.ok, "C15-E5/" + f.key, "C15-E5-optimize-footprint", f.what, where=f.where)
+    optim_rules.optimize_verdicts(run_, pkg, "C15", lambda f: ("C15-E5/" + f.key, "C15-E5-optimize-footprint") if f.rule == "C06-a-who-may-fix" else None,
+                                  rule_sem="C15-E5-optimize-footprint")
 
 
 def rule_E7(run_, pkg):
